@@ -939,6 +939,22 @@ def _hoist_nested_helper_calls(mod, stmts, caller):
                                     return self_.generic_visit(n)
                             s = Rep().visit(s)
             out.extend(pre)
+        elif isinstance(s, ast.If):
+            # a helper call in the test of an if (the test is evaluated first, so hoisting it in front changes nothing)
+            pre = []
+            for c in list(ast.walk(s.test)):
+                if isinstance(c, ast.Call):
+                    h = _module_helper(mod, c.func, caller)
+                    if h is not None and h is not caller and _single_expr_helper(h) is None and not _has(h, (ast.Yield, ast.YieldFrom)) \
+                            and all(_pure_arg(a) for a in c.args) and not c.keywords and (c is s.test or isinstance(s.test, ast.UnaryOp) and s.test.operand is c):
+                        tmp = f"_{h.name.strip('_')}_val{next(_counter)}"
+                        pre.append(ast.copy_location(ast.Assign(targets=[ast.Name(id=tmp, ctx=ast.Store())], value=_clone(c)), s))
+                        repl = ast.copy_location(ast.Name(id=tmp, ctx=ast.Load()), c)
+                        if c is s.test:
+                            s.test = repl
+                        else:
+                            s.test.operand = repl
+            out.extend(pre)
         out.append(s)
     return out
 
